@@ -29,13 +29,13 @@ from .world import SimClock, World, rng_state_digest
 
 ALGS = ["cp_als", "cp_apr_mu", "cp_apr_pdnr", "cp_apr_pqnr", "hosvd", "tucker_als", "gcp_lbfgsb"]
 RELS = {
-    "cp_als": ["R1", "R1p", "R1s", "R2", "R4", "R5", "R6", "R7"],
-    "cp_apr_mu": ["R1", "R1p", "R1s", "R2", "R2d", "R3", "R4", "R5"],
-    "cp_apr_pdnr": ["R1", "R1p", "R1s", "R2", "R2d", "R3", "R4", "R5"],
-    "cp_apr_pqnr": ["R1", "R1s", "R2", "R2d", "R3", "R4", "R5"],
-    "hosvd": ["R1p", "R1s", "R2", "R6", "R7"],
-    "tucker_als": ["R1", "R1p", "R1s", "R2", "R4", "R5", "R6", "R7"],
-    "gcp_lbfgsb": ["R1", "R1p", "R1s", "R1g", "R2", "R3", "R4", "R7"],
+    "cp_als": ["R1", "R1p", "R1s", "R2", "R4", "R5", "R6", "R7", "R1h"],
+    "cp_apr_mu": ["R1", "R1p", "R1s", "R2", "R2d", "R3", "R4", "R5", "R1h"],
+    "cp_apr_pdnr": ["R1", "R1p", "R1s", "R2", "R2d", "R3", "R4", "R5", "R1h"],
+    "cp_apr_pqnr": ["R1", "R1s", "R2", "R2d", "R3", "R4", "R5", "R1h"],
+    "hosvd": ["R1p", "R1s", "R2", "R6", "R7", "R1h"],
+    "tucker_als": ["R1", "R1p", "R1s", "R2", "R4", "R5", "R6", "R7", "R1h"],
+    "gcp_lbfgsb": ["R1", "R1p", "R1s", "R1g", "R2", "R3", "R4", "R7", "R1h"],
 }
 # R1/R1p/R2/R3 vary only what the simulator owns (seed, call history, output sink, clock): the arithmetic of
 # the run is the same, so the results must be bit-identical (0.0). A print-only branch that touches the
@@ -47,7 +47,7 @@ RELS = {
 # (probe:bitwise_equal) but not demanded: differences up to ROUNDING pass, anything larger must be explained by the
 # conditioning of the problem (two-sided guard below) or is a violation.
 ROUNDING = 1e-12
-TOL = {"R1": ROUNDING, "R1p": ROUNDING, "R1s": ROUNDING, "R1g": ROUNDING, "R1f": ROUNDING, "R2": ROUNDING, "R2d": ROUNDING, "R3": ROUNDING, "R4": 1e-12, "R5": 1e-8, "R6": 1e-8, "R7": 1e-8}
+TOL = {"R1": ROUNDING, "R1p": ROUNDING, "R1s": ROUNDING, "R1g": ROUNDING, "R1f": ROUNDING, "R2": ROUNDING, "R2d": ROUNDING, "R3": ROUNDING, "R1h": 1e-8, "R4": 1e-12, "R5": 1e-8, "R6": 1e-8, "R7": 1e-8}
 FIT_TOL = 1e-6
 PQNR_KNOWN_MSG = "ERROR: L-BFGS first iterate is bad"
 
@@ -190,6 +190,9 @@ class EngineC18:
         if rel == "R1g":
             # the same explicit guess handed over in another form (Kruskal tensor / list / tuple of the factor matrices)
             return {"op": "R1g", "form": g.choice([f for f in ("ktensor", "list", "tuple") if f != init.get("guess_form", "ktensor")])}
+        if rel == "R1h":
+            # the data object has a history: it was solved before while holding other content, then edited in place
+            return {"op": "R1h", "sparse": g.random() < 0.7, "perm_seed": g.randrange(1000), "pick": g.randrange(1000)}
         if rel == "R1p":
             return {"op": "R1p", "prelude": g.choice(["eigs", "ops", "both"])}
         if rel == "R2":
@@ -246,6 +249,18 @@ class EngineC18:
             xv = np.transpose(xv, perm)
         if init.get("int_storage") and scale == 1.0:
             xv = xv.astype(np.int64)
+        edits = []
+        x_final = xv
+        if variant.get("history") == "edited_object":
+            nzp = np.argwhere(xv != 0)
+            zp = np.argwhere(xv == 0)
+            if nzp.shape[0] >= 2 and zp.shape[0] >= 1:
+                p0 = tuple(int(v) for v in nzp[variant.get("pick", 0) % nzp.shape[0]])
+                q0 = tuple(int(v) for v in zp[(variant.get("pick", 0) // 7) % zp.shape[0]])
+                xv = xv.copy()
+                xv[q0] = x_final[p0]
+                xv[p0] = 0
+                edits = [(q0, 0), (p0, x_final[p0].item())]
         if variant.get("sparse"):
             subs = np.argwhere(xv != 0)
             order = np.random.RandomState(variant.get("perm_seed", 0)).permutation(subs.shape[0])
@@ -284,55 +299,67 @@ class EngineC18:
                 np.random.seed(variant.get("np_seed", init["np_seed"]))
                 w.eig_calls = 0  # the start-vector index is a harness artefact, not history of the SUT
                 w.eig_gaps.clear()
-            if alg == "cp_als":
-                g0 = ttb.ktensor([f.copy() for f in guess]) if isinstance(guess, list) else guess
-                M, Minit, info = ttb.cp_als(data, init["rank"], stoptol=stoptol, maxiters=init["maxiters"], dimorder=dimorder, init=g0, printitn=printitn, fixsigns=init["fixsigns"])
-                out.update(full=M.full().data.copy(), fit=float(info["fit"]), iters=int(info["iters"]), guess_out=[f.copy() for f in Minit.factor_matrices], guess_w=Minit.weights.copy())
-            elif alg.startswith("cp_apr"):
-                g0 = ttb.ktensor([f.copy() for f in guess]) if isinstance(guess, list) else guess
-                M, Minit, info = ttb.cp_apr(
-                    data,
-                    init["rank"],
-                    algorithm=alg.split("_")[-1],
-                    stoptol=stoptol,
-                    stoptime=variant.get("stoptime", 1e6),
-                    maxiters=init["maxiters"],
-                    maxinneriters=init["maxinneriters"],
-                    init=g0,
-                    printitn=printitn,
-                    printinneritn=variant.get("printinneritn", 0),
-                    **init["opts"],
-                )
-                out.update(full=M.full().data.copy(), fit=float(info["obj"]), iters=len(np.asarray(info["kktViolations"]).reshape(-1)), guess_out=[f.copy() for f in Minit.factor_matrices], guess_w=Minit.weights.copy())
-            elif alg == "hosvd":
-                kw: Dict[str, Any] = {}
-                if init["use_ranks"]:
+            def run_alg(data, out):
+                if alg == "cp_als":
+                    g0 = ttb.ktensor([f.copy() for f in guess]) if isinstance(guess, list) else guess
+                    M, Minit, info = ttb.cp_als(data, init["rank"], stoptol=stoptol, maxiters=init["maxiters"], dimorder=dimorder, init=g0, printitn=printitn, fixsigns=init["fixsigns"])
+                    out.update(full=M.full().data.copy(), fit=float(info["fit"]), iters=int(info["iters"]), guess_out=[f.copy() for f in Minit.factor_matrices], guess_w=Minit.weights.copy())
+                elif alg.startswith("cp_apr"):
+                    g0 = ttb.ktensor([f.copy() for f in guess]) if isinstance(guess, list) else guess
+                    M, Minit, info = ttb.cp_apr(
+                        data,
+                        init["rank"],
+                        algorithm=alg.split("_")[-1],
+                        stoptol=stoptol,
+                        stoptime=variant.get("stoptime", 1e6),
+                        maxiters=init["maxiters"],
+                        maxinneriters=init["maxinneriters"],
+                        init=g0,
+                        printitn=printitn,
+                        printinneritn=variant.get("printinneritn", 0),
+                        **init["opts"],
+                    )
+                    out.update(full=M.full().data.copy(), fit=float(info["obj"]), iters=len(np.asarray(info["kktViolations"]).reshape(-1)), guess_out=[f.copy() for f in Minit.factor_matrices], guess_w=Minit.weights.copy())
+                elif alg == "hosvd":
+                    kw: Dict[str, Any] = {}
+                    if init["use_ranks"]:
+                        rk = list(init["ranks"])
+                        if perm is not None:
+                            rk = [rk[p] for p in perm]
+                        kw["ranks"] = np.array(rk)
+                    T = ttb.hosvd(data, init["tol"], verbosity=variant.get("verbosity", 0), dimorder=dimorder, sequential=init["sequential"], **kw)
+                    full = T.full().data.copy()
+                    nx = np.linalg.norm(xv)
+                    out.update(full=full, fit=float(1 - np.linalg.norm(full - xv) / nx), iters=0, core_shape=tuple(T.core.shape))
+                elif alg == "tucker_als":
                     rk = list(init["ranks"])
                     if perm is not None:
                         rk = [rk[p] for p in perm]
-                    kw["ranks"] = np.array(rk)
-                T = ttb.hosvd(data, init["tol"], verbosity=variant.get("verbosity", 0), dimorder=dimorder, sequential=init["sequential"], **kw)
-                full = T.full().data.copy()
-                nx = np.linalg.norm(xv)
-                out.update(full=full, fit=float(1 - np.linalg.norm(full - xv) / nx), iters=0, core_shape=tuple(T.core.shape))
-            elif alg == "tucker_als":
-                rk = list(init["ranks"])
-                if perm is not None:
-                    rk = [rk[p] for p in perm]
-                g0 = [None if f is None else f.copy() for f in guess] if isinstance(guess, list) else guess
-                T, Uinit, info = ttb.tucker_als(data, rk, stoptol=stoptol, maxiters=init["maxiters"], dimorder=dimorder, init=g0, printitn=printitn)
-                out.update(full=T.full().data.copy(), fit=float(info["fit"]), iters=int(info["iters"]), guess_out=[None if u is None else np.array(u, copy=True) for u in Uinit])
-            else:
-                from pyttb.gcp.handles import Objectives
-                from pyttb.gcp.optimizers import LBFGSB
+                    g0 = [None if f is None else f.copy() for f in guess] if isinstance(guess, list) else guess
+                    T, Uinit, info = ttb.tucker_als(data, rk, stoptol=stoptol, maxiters=init["maxiters"], dimorder=dimorder, init=g0, printitn=printitn)
+                    out.update(full=T.full().data.copy(), fit=float(info["fit"]), iters=int(info["iters"]), guess_out=[None if u is None else np.array(u, copy=True) for u in Uinit])
+                else:
+                    from pyttb.gcp.handles import Objectives
+                    from pyttb.gcp.optimizers import LBFGSB
 
-                opt = LBFGSB(maxiter=init["maxiter"], iprint=-1)
-                g0 = ttb.ktensor([f.copy() for f in guess]) if isinstance(guess, list) else guess
-                form = variant.get("guess_form") or init.get("guess_form", "ktensor")
-                if isinstance(guess, list) and form != "ktensor":
-                    g0 = [f.copy() for f in guess] if form == "list" else tuple(f.copy() for f in guess)
-                M, M0, info = ttb.gcp_opt(data, init["rank"], getattr(Objectives, init["loss"]), opt, init=g0, printitn=printitn)
-                out.update(full=M.full().data.copy(), fit=float(info["final_f"]), iters=int(info["nit"]), guess_out=[f.copy() for f in M0.factor_matrices], guess_w=M0.weights.copy())
+                    opt = LBFGSB(maxiter=init["maxiter"], iprint=-1)
+                    g0 = ttb.ktensor([f.copy() for f in guess]) if isinstance(guess, list) else guess
+                    form = variant.get("guess_form") or init.get("guess_form", "ktensor")
+                    if isinstance(guess, list) and form != "ktensor":
+                        g0 = [f.copy() for f in guess] if form == "list" else tuple(f.copy() for f in guess)
+                    M, M0, info = ttb.gcp_opt(data, init["rank"], getattr(Objectives, init["loss"]), opt, init=g0, printitn=printitn)
+                    out.update(full=M.full().data.copy(), fit=float(info["final_f"]), iters=int(info["nit"]), guess_out=[f.copy() for f in M0.factor_matrices], guess_w=M0.weights.copy())
+
+            if variant.get("history") == "edited_object" and edits:
+                # the same data *object* was solved before, holding other content, and then edited in place
+                run_alg(data, {})
+                for pos, val in edits:
+                    data[tuple(pos)] = val
+                xv = x_final
+                np.random.seed(variant.get("np_seed", init["np_seed"]))
+                w.eig_calls = 0
+                w.eig_gaps.clear()
+            run_alg(data, out)
             out["rng_after"] = rng_state_digest()
             out["eig_gaps"] = list(w.eig_gaps)
         out["stdout_len"] = len(w.stdout.getvalue()) + len(w.log.getvalue())
@@ -427,6 +454,22 @@ class EngineC18:
             if init.get("init_kind") != "explicit":
                 raise Skip("no_explicit_guess")
             var = {"guess_form": step["form"]}
+        elif op == "R1h":
+            if alg == "gcp_lbfgsb" and step["sparse"]:
+                raise Skip("gcp_lbfgsb_takes_dense_data")
+            rep = {"sparse": True, "perm_seed": step["perm_seed"]} if step["sparse"] else {}
+            base_v = dict(rep)
+            var = dict(rep, history="edited_object", pick=step["pick"])
+            if not step["sparse"]:
+                tol = ROUNDING  # dense storage: the edited object holds exactly the same array
+            if step["sparse"] and alg in ("cp_apr_pdnr", "cp_apr_pqnr"):
+                # entries stored in another order are summed in another order: same restrictions as for R5 below
+                if init.get("init_kind") == "explicit" and any((np.asarray(dec(f)).sum(axis=1) == 0).any() for f in init["factors"]):
+                    raise Skip("zero_row_guess_ties_active_set_threshold")
+                init = dict(init)
+                init["maxiters"] = 1
+                init["maxinneriters"] = 1
+            res.bump("fault:data_object_edited_between_solves")
         elif op == "R1p":
             var = {"prelude": step["prelude"]}
         elif op == "R1s":
